@@ -250,6 +250,7 @@ def entry_state(spec, tree, warm):
         if f in ('p0',):
             st.pc.append(z3.Int('self_' + f) >= 1)
     st.ghost['fit_intercept'] = z3.Bool('self_fit_intercept')
+    st.ghost['items'] = spec.get('items', 'n_features')
     if warm:
         w = SArr(st.newloc('w_init'))
         if spec.get('no_xw'):
